@@ -2,8 +2,10 @@
 C16, session 4 / T23: from the input line to the hit the emission logic sees — the parse dispatch of
 `handle_grep_line` (grep.rs): `parse_raw_grep_line` on the raw line when it begins with ESC (coloured
 format; the code is then passed through `strip_ansi_codes`), otherwise / on failure `parse_grep_line`
-on the line without escape sequences: `ripgrep_json::parse_line` when it begins with `{`, else the
-plain-text regexes in order.
+on the line without escape sequences: `ripgrep_json::parse_line` when it begins with `{`, else — and, when
+the source has the repair notes/fix-grep-brace-path.diff (regenerated flag
+`Generated.Grep.jsonFailureFallsBackToRegexes`), also when the JSON reader answers `None` — the plain-text
+regexes in order.
 
 Trusted (parameters of the model): `strip` = `ansi::strip_ansi_codes` (the theorems only use that it
 leaves ESC-free text alone), and the JSON text parser (a JSON line comes as its value, as in
@@ -42,20 +44,42 @@ inductive Input where
   /-- a line that is JSON text for the value `v` (`raw`: its bytes) -/
   | json (v : RipGrepJson.JVal) (raw : Bytes)
 
-/-- The dispatch of `handle_grep_line` for a calling process that is a grep (`GitGrep`, `OtherGrep`).
-A text beginning with `{` is handed to the JSON reader only: when it is not JSON text it is not grep
-output (JSON text comes as `Input.json`). -/
-def lineOfInput (w : Nat) (strip : List Char → List Char) : Input → Line
-  | .json v raw => RipGrepJson.lineOf v raw
+/-- The text of a line given by its bytes (an input line is UTF-8: `ingest_line_utf8`). -/
+def charsOfBytes (raw : Bytes) : Option (List Char) :=
+  (String.fromUTF8? (ByteArray.mk raw.toArray)).map String.toList
+
+/-- The plain-text regexes in order on the line `line` (without escape sequences) whose raw form is `raw`. -/
+def plainLine (w : Nat) (raw : Bytes) (line : List Char) : Line :=
+  match parsePlain line with
+  | some p => .hit (hitOfParsed w p.code p)
+  | none => .other raw
+
+/-- The dispatch of `handle_grep_line` for a calling process that is a grep (`GitGrep`, `OtherGrep`), for either
+shape of `parse_grep_line` (`fallback` = the regenerated `Generated.Grep.jsonFailureFallsBackToRegexes`):
+a line beginning with `{` goes to the JSON reader first (a text that is JSON comes as `Input.json`; an `Input.text`
+beginning with `{` is text the JSON reader answers `None` for). `fallback = false`: the JSON reader ONLY — what it
+does not accept is not grep output. `fallback = true`: what it does not accept is tried by the plain-text regexes
+like every other line. -/
+def lineOfInputWith (fallback : Bool) (w : Nat) (strip : List Char → List Char) : Input → Line
+  | .json v raw =>
+    match RipGrepJson.parseLine v with
+    | some _ => RipGrepJson.lineOf v raw
+    | none =>
+      if fallback then
+        match charsOfBytes raw with
+        | some line => plainLine w raw line
+        | none => .other raw
+      else .other raw
   | .text raw =>
     match (if raw.head? = some esc then parseColoured raw else none) with
     | some p => .hit (hitOfParsed w (strip p.code) p)
     | none =>
-      if (strip raw).head? = some '{' then .other (RipGrepJson.bytesOfChars raw)
-      else
-        match parsePlain (strip raw) with
-        | some p => .hit (hitOfParsed w p.code p)
-        | none => .other (RipGrepJson.bytesOfChars raw)
+      if (strip raw).head? = some '{' ∧ fallback = false then .other (RipGrepJson.bytesOfChars raw)
+      else plainLine w (RipGrepJson.bytesOfChars raw) (strip raw)
+
+/-- The dispatch as the source has it (the shape of `parse_grep_line` is regenerated). -/
+def lineOfInput (w : Nat) (strip : List Char → List Char) : Input → Line :=
+  lineOfInputWith Generated.Grep.jsonFailureFallsBackToRegexes w strip
 
 /-! ## What is written into delta (the domain of `grep_line_rendered_faithfully`) -/
 
@@ -74,7 +98,8 @@ def Src.input : Src → Input
   | .json v raw => .json v raw
 
 /-- The hypotheses of the parse theorems: `coloured_round_trip`; one of the four plain fragments, no ESC in the
-line, the path does not begin with `{`; a JSON value `parse_line` answers with a match / context / header line. -/
+line, the path does not begin with `{` — asked only while `parse_grep_line` hands `{` lines to the JSON reader only
+(`jsonFailureFallsBackToRegexes = false`); a JSON value `parse_line` answers with a match / context / header line. -/
 def Src.Admissible : Src → Prop
   | .coloured p =>
     textKinds.contains p.kind = true ∧ p.path.contains esc = false ∧
@@ -82,7 +107,8 @@ def Src.Admissible : Src → Prop
     (p.digits = none → ∀ s, p.kind.sep = [s] → colouredNum s p.code = none)
   | .plain p =>
     (fragNumbered p || fragUnnumbered p || fragUnnumberedExt p || fragNoExt p) = true ∧
-    (fmtPlain p).contains esc = false ∧ (fmtPlain p).head? ≠ some '{'
+    (fmtPlain p).contains esc = false ∧
+    (Generated.Grep.jsonFailureFallsBackToRegexes = false → (fmtPlain p).head? ≠ some '{')
   | .json v _ => ∃ r, RipGrepJson.parseLine v = some r ∧ r.kind ≠ .ignore
 
 /-- What the line says: kind, path, number, code (the coloured code without its escape sequences; the JSON
